@@ -59,13 +59,14 @@ RULE = ("api: every sequence over {save(1), save(0), ins a, ins b, backspace, cu
 EXHAUSTIVE = True
 EXHAUSTIVE_SCOPE = {
     "quick": "api: all sequences len<=4 over 8 calls x 2 initial docs, all command sequences len<=4 over 7 commands; "
-             "keys: all sequences len<=2 over 9 emacs keys and 9 vi keys (+250 sampled of len 3-5 each); fully modelled "
-             "emacs keys: all sequences len<=3 over {a, b, backspace, left, c-k, c-_, redo} (+400 sampled of len 4-5); "
-             "fully modelled vi keys: all sequences len<=3 over {i, a, x, u, escape, redo} (+300 sampled of len 4-6)",
+             "keys: all sequences len<=2 over 9 emacs keys and 9 vi keys (+150 sampled of len 3-5 each); fully modelled "
+             "emacs keys: all sequences len<=3 over {a, b, backspace, left, c-k, c-_, redo} (+250 sampled of len 4-5); "
+             "fully modelled vi keys: all sequences len<=3 over {i, a, x, u, escape, redo} (+200 sampled of len 4-6)",
     "thorough": "api: all sequences len<=5 over 8 calls x 2 initial docs, all command sequences len<=6 over 7 commands; "
-                "keys: all sequences len<=4 over 9 emacs keys and 9 vi keys; fully modelled emacs keys: all sequences "
-                "len<=5 over {a, b, backspace, left, c-k, c-_, redo}; fully modelled vi keys: all sequences len<=5 over "
-                "{i, a, x, u, escape, redo}"}
+                "keys: all sequences len<=3 over 9 emacs keys and 9 vi keys (+1500 sampled of len 4-6 each); fully "
+                "modelled emacs keys: all sequences len<=4 over {a, b, backspace, left, c-k, c-_, redo} (+2500 sampled "
+                "of len 5-7); fully modelled vi keys: all sequences len<=4 over {i, a, x, u, escape, redo} (+2000 "
+                "sampled of len 5-8)"}
 TRUSTED = ["harness/c07.py observes every KeyProcessor._call_handler call by wrapping the bound method on the instance "
            "(the real method runs unchanged inside) and counts Buffer.undo()/redo()/save_to_undo_stack() calls the same way",
            "the save_before rule of a binding is read by calling binding.save_before on two stub events (is_repeat False/True); "
@@ -776,16 +777,19 @@ def _api_cases(quick, rng):
 
 def _key_cases(quick, rng):
     kcases = []
-    maxlen = 2 if quick else 4
+    maxlen = 2 if quick else 3
     for mode, alpha in (("emacs", EMACS_SMALL), ("vi", VI_SMALL)):
         tups = [t for n in range(1, maxlen + 1) for t in itertools.product(alpha, repeat=n)]
-        if quick:   # beyond the exhaustive bound: a seeded sample of the length-3..5 sequences
-            tups += [tuple(rng.choice(alpha) for _ in range(rng.choice([3, 3, 4, 5]))) for _ in range(250)]
+        # beyond the exhaustive bound: a seeded sample of longer sequences over the same alphabet
+        if quick:
+            tups += [tuple(rng.choice(alpha) for _ in range(rng.choice([3, 3, 4, 5]))) for _ in range(150)]
+        else:
+            tups += [tuple(rng.choice(alpha) for _ in range(rng.choice([4, 4, 5, 6]))) for _ in range(1500)]
         for tup in tups:
             odd = len(tup) % 2
             kcases.append({"kind": "keys", "mode": mode, "multiline": False, "text": "xy" if odd else "",
                            "cur": 1 if odd else 0, "history": [], "ops": _flatten([[k] for k in tup])})
-    for _ in range(500 if quick else 16000):
+    for _ in range(350 if quick else 8000):
         mode = rng.choice(["emacs", "vi"])
         toks = EMACS_TOKENS if mode == "emacs" else VI_TOKENS
         n = rng.choice([0, 0, 1, 2, 3, 6, 12])
@@ -814,15 +818,17 @@ def _key_cases(quick, rng):
     # ---- fully modelled emacs keys: the model predicts the text too, rules and identities are static
     ecases = []
     small = ["a", "b", "c-h", "left", "c-k", "c-_", "f12"]
-    maxlen = 3 if quick else 5
+    maxlen = 3 if quick else 4
     tups = [t for n in range(1, maxlen + 1) for t in itertools.product(small, repeat=n)]
-    if quick:   # beyond the exhaustive bound: a seeded sample of the length-4/5 sequences
-        tups += [tuple(rng.choice(small) for _ in range(rng.choice([4, 4, 5]))) for _ in range(400)]
+    if quick:   # beyond the exhaustive bound: a seeded sample of longer sequences
+        tups += [tuple(rng.choice(small) for _ in range(rng.choice([4, 4, 5]))) for _ in range(250)]
+    else:
+        tups += [tuple(rng.choice(small) for _ in range(rng.choice([5, 5, 6, 7]))) for _ in range(2500)]
     for tup in tups:
         odd = len(tup) % 2
         ecases.append({"kind": "ekeys", "multiline": False, "text": "xy" if odd else "", "cur": 1 if odd else 0,
                        "ops": [[k, k if len(k) == 1 else None] for k in tup]})
-    for _ in range(250 if quick else 6000):
+    for _ in range(150 if quick else 3000):
         n = rng.choice([0, 1, 2, 3, 6, 12])
         text = "".join(rng.choice(["a", "b", " ", "x", "\n", "世"]) for _ in range(n))
         if rng.random() < 0.5:
@@ -835,15 +841,17 @@ def _key_cases(quick, rng):
         ecases.append({"kind": "ekeys", "multiline": "\n" in text, "text": text, "cur": cur, "ops": ops})
     # ---- fully modelled vi keys
     vcases = []
-    maxlen = 3 if quick else 5
+    maxlen = 3 if quick else 4
     tups = [t for n in range(1, maxlen + 1) for t in itertools.product(VKEYS, repeat=n)]
     if quick:
-        tups += [tuple(rng.choice(VKEYS) for _ in range(rng.choice([4, 5, 6]))) for _ in range(300)]
+        tups += [tuple(rng.choice(VKEYS) for _ in range(rng.choice([4, 5, 6]))) for _ in range(200)]
+    else:
+        tups += [tuple(rng.choice(VKEYS) for _ in range(rng.choice([5, 6, 7, 8]))) for _ in range(2000)]
     for tup in tups:
         m = len(tup) % 3
         vcases.append({"kind": "vkeys", "multiline": m == 2, "text": ["", "xy", "ab\ncd"][m], "cur": [0, 1, 2][m],
                        "ops": [[k, k if len(k) == 1 else None] for k in tup]})
-    for _ in range(250 if quick else 6000):
+    for _ in range(150 if quick else 3000):
         n = rng.choice([0, 1, 2, 3, 6, 12])
         text = "".join(rng.choice(["a", "b", " ", "x", "\n", "世"]) for _ in range(n))
         if rng.random() < 0.5:
